@@ -116,8 +116,14 @@ SearchCase genSearch(Choices& c, bool first, bool& throttled) {
         gen::Placed p = gen::place(c);
         if (!p.ok) { ref::fromFEN(gen::seedFens()[0], p.p); }
         root = p.p; s.fen = ref::toFEN(root); s.shape = std::string("placement:") + gen::tmplName(p.tmpl);
-    } else if (kind <= 8) {
+    } else if (kind == 7) {
         s.fen = c.of(specialRoots()); ref::fromFEN(s.fen, root); s.shape = "special";
+    } else if (kind == 8) {
+        // promotion roots (both colours): printed under-promotions must name the right piece
+        gen::Placed p = gen::place(c, gen::T_PROMO);
+        if (!p.ok) ref::fromFEN("8/8/8/8/8/k7/2p5/K7 b - - 0 1", p.p);
+        root = p.p; s.fen = ref::toFEN(root); s.shape = "promo-root";
+        if (c.flip()) s.setopts.push_back("setoption name MultiPV value " + std::to_string(c.range(4, 8)));
     } else {
         gen::Placed p = gen::place(c, gen::T_ENDGAME);
         if (!p.ok) ref::fromFEN(specialRoots()[7], p.p);
@@ -131,7 +137,13 @@ SearchCase genSearch(Choices& c, bool first, bool& throttled) {
     if (lm.empty()) s.shape += "+nomoves"; else if (lm.size() == 1) s.shape += "+onemove";
     std::string go = "go";
     if (c.chance(1, 7)) { s.ponder = true; go += " ponder"; }
-    if (!lm.empty() && c.chance(1, 4)) {
+    std::vector<ref::Move> under;
+    for (auto& m : lm) if (m.promo && m.promo != 'q') under.push_back(m);
+    if (s.shape.rfind("promo-root", 0) == 0 && !under.empty() && c.flip()) {
+        go += " searchmoves";
+        int n = c.range(1, std::min<int>(2, (int)under.size()));
+        for (int i = 0; i < n; i++) { ref::Move m = under[c.pick((int)under.size())]; if (std::find(s.searchMoves.begin(), s.searchMoves.end(), m.uci()) == s.searchMoves.end()) { go += " " + m.uci(); s.searchMoves.push_back(m.uci()); } }
+    } else if (!lm.empty() && c.chance(1, 4)) {
         go += " searchmoves";
         int n = c.range(1, std::min<int>(5, (int)lm.size()));
         std::vector<ref::Move> pool = lm;
@@ -156,6 +168,28 @@ SearchCase genSearch(Choices& c, bool first, bool& throttled) {
     }
     s.go = go;
     return s;
+}
+
+// A <=4-man pawnless root searched without limits (the engine builds its in-memory tablebase, Hash >= 8), followed by
+// a 5-man root of the same material plus one more man of the weaker side: the second search's mate PVs are extended
+// from the retained table once a capture enters its material.
+void tbFollowUp(Choices& c, Case& k) {
+    static const std::vector<std::string> base = {"KQkr", "KQkn", "KQkb", "KRkn", "KRkb", "KQkq", "KRkr", "KQk", "KRk"};
+    std::string mat = c.of(base);
+    auto placeAll = [&](const std::string& men, ref::Pos& p) {
+        p = ref::Pos();
+        for (char m : men) { int s = gen::emptySquare(c, p); if (s < 0) return false; p.b[s] = m; }
+        p.wtm = c.flip(); p.hmc = 0; p.fmc = 1;
+        return ref::sane(p) && !ref::legalMoves(p).empty();
+    };
+    ref::Pos p1, p2;
+    if (!placeAll(mat, p1)) return;
+    std::string extra(1, c.of(std::vector<char>{'n', 'b', 'r', 'n'}));
+    if (!placeAll(mat + extra, p2)) return;
+    SearchCase a; a.setopts = {"setoption name Hash value 16", "setoption name Strength value 1000", "setoption name UCI_LimitStrength value false", "setoption name MaxNPS value 0", "setoption name OwnBook value false"};
+    a.fen = ref::toFEN(p1); a.go = "go infinite"; a.infinite = true; a.pace = 2; a.paceArg = 3; a.shape = "tb-root";
+    SearchCase b; b.fen = ref::toFEN(p2); b.go = "go infinite"; b.infinite = true; b.pace = 2; b.paceArg = c.range(4, 7); b.shape = "tb-followup";
+    k.s.push_back(a); k.s.push_back(b);
 }
 
 // ---- validation -------------------------------------------------------------------
@@ -226,7 +260,7 @@ std::string runCase(const Case& k, vh::Stats& st, bool& inconclusive, std::strin
         e.send(s.go);
         if (s.infinite || s.ponder) {
             if (s.pace == 1) e.waitPrefix("info ", 300);
-            else if (s.pace == 2) { int want = s.paceArg; e.waitFor([&](const std::string& l) { uci::Info inf; return l.rfind("bestmove", 0) == 0 || (uci::parseInfo(l, inf) && inf.depth >= want); }, 1500); }
+            else if (s.pace == 2) { int want = s.paceArg; e.waitFor([&](const std::string& l) { uci::Info inf; return l.rfind("bestmove", 0) == 0 || (uci::parseInfo(l, inf) && inf.depth >= want); }, s.shape.rfind("tb-", 0) == 0 ? 40000 : 1500); } // tb roots: the table must get built
             else if (s.pace == 3) e.sleepMs(s.paceArg);
             // after ponderhit only *time* limits (movetime / clock) end the search by themselves: the engine starts a
             // ponder search without depth/node limits and ponderhit re-installs the time limits only
@@ -283,6 +317,8 @@ void classify(const Case& k, vh::Stats& st) {
         if (s.shape.find("+onemove") != std::string::npos) { nt = true; st.clsSample("single-legal-move root", mk); }
         if (s.shape.find("+hmc") != std::string::npos) { nt = true; st.clsSample("hmc 96..100 root", mk); }
         if (s.shape.find("endgame") != std::string::npos || s.shape == "special") st.cls("special/endgame root");
+        if (s.shape == "tb-followup") st.clsSample("5-man root after a resident 4-man table", mk);
+        if (s.shape.rfind("promo-root", 0) == 0) st.clsSample("promotion root", mk);
     }
     if (nt) st.nt(vj::dump(toJson(k))); else st.cls("plain");
 }
@@ -322,9 +358,12 @@ int main(int argc, char** argv) {
         vh::runProp("configs", a.cases, 8.0, [&](Choices& c) {
             Case k;
             k.net = c.pick((int)gNets.size());
-            int n = c.range(1, 6);
+            Case tail; // decided first so that a short choice stream does not starve it
+            if (c.chance(1, 4)) tbFollowUp(c, tail);
+            int n = tail.s.empty() ? c.range(1, 6) : c.range(0, 2);
             bool throttled = false;
             for (int i = 0; i < n && (i == 0 || !c.empty()); i++) k.s.push_back(genSearch(c, i == 0, throttled));
+            for (auto& x : tail.s) k.s.push_back(x);
             runAndJudge("configs", k, st);
         }, -1, 15);
         rc = vh::finish();
